@@ -5684,8 +5684,9 @@ GRreadchunk(int32  riid,   /* IN: access aid to GR */
 
     /* check if access id exists already */
     if (ri_ptr->img_aid == 0) {
-        /* now get access id, use write access */
-        if (GRIgetaid(ri_ptr, DFACC_WRITE) == FAIL)
+        /* now get access id; reading needs read access only (and a file opened read-only
+           grants nothing else; a later write upgrades the access) */
+        if (GRIgetaid(ri_ptr, DFACC_READ) == FAIL)
             HGOTO_ERROR(DFE_INTERNAL, FAIL);
     }
     else if (ri_ptr->img_aid == FAIL)
